@@ -47,7 +47,8 @@ ASSUME = ["reference Kabsch / Umeyama with the det(U)det(V) sign correction in n
           "because along a direction whose curvature is ~u|M| the optimum is decided by rounding noise",
           "exact correspondences: max residual <= 64*u*(max|target| + s*max|source| + |t| + min(|M|/sqrt(lam), pi*sqrt(lam)/u)) "
           "with lam the smallest rotational curvature d2 +- d3 of the cost (a backward-stable solver leaves an SSE excess "
-          "(u|M|)^2/lam); equality with the true transform only if lam >= 1e-6*(d1+d2), tolerance 64*u*|M|/lam",
+          "(u|M|)^2/lam); equality with the true transform only if lam >= 1e-6*(d1+d2), tolerance 64*u*kappa with kappa = 4|M|/lam (rotation block) "
+          "and 64*u*(1+kappa)*(|t|+s|c_s|+|c_t|+s|S|) (translation)",
           "ICP convergence basin = set of inputs on which the reference closest-point iteration reaches the true transform",
           "EPnP tolerance 4096*u*(sigma_1/sigma_11)^2 on the rotation angle and on |t - t_true| / |camera-frame centroid| "
           "(calibration on the unchanged tree: worst observed error / (u*cond^2) = 244 over 1200 cases, worst absolute "
@@ -239,7 +240,7 @@ def judge_alignment(ck, rng, fn, dn, src, tgt, X, Mtrue, noise, true_scaled, kla
         rr(ck, "exact.residual", reg, [res], C * u * (scale + cond), fn, "exact_correspondences_not_reproduced",
            lambda i: dict(w(), max_residual=res, true_matrix=np.asarray(Mtrue, dtype=np.float64)))
         if determined:
-            kap = nS * nQ / lam
+            kap = 4.0 * nS * nQ / lam      # U and V both perturbed, three rotation directions
             Mt = np.asarray(Mtrue, dtype=np.float64)
             Mgf = np.asarray(Mg, dtype=np.float64)
             e_rot = float(np.abs(Mgf[:3, :3] - Mt[:3, :3]).max()) / s_ref
@@ -314,10 +315,60 @@ def run_alignment(ck, rng, dn, thorough):
                     judge_alignment(ck, rng, fn, dn, src, tgt, X[b], M, noise, mismatch, klass, kind, reg, wit, nper)
 
 
-# ------------------------------------------------------------------------------- ICP
-def icp_matrix(T):
-    return L.group_matrix("SE3", T.tensor().detach().double().numpy())
+def run_reflection_stress(ck, rng, dn, thorough):
+    """Volume on the reflection decision: thousands of small flat / minimal / noisy sets per
+    batched call (the determinant test of a reflection is a rounding-sensitive decision), judged
+    on 'proper element' and 'not worse than the reference optimum' only (vectorised oracle)."""
+    u = u_of(dn)
+    B = 1500
+    calls = (10 if thorough else 3) * (3 if dn == "f32" else 1)
+    kinds = ("planar", "thin", "minimal3", "generic", "collinear", "regular")
+    case = 0
+    for rep in range(calls):
+        for fn in ("svdtf", "svdstf"):
+            for n in (3, 4, 8):
+                case += 1
+                if not ck.mine(case):
+                    continue
+                items = []
+                for b in range(B):
+                    kind = kinds[b % len(kinds)]
+                    noise = (0.0, 0.0, 0.05, 0.5)[(b // len(kinds)) % 4]
+                    items.append(align_item(rng, kind, n, noise, fn == "svdstf", dn)[:2])
+                S = np.stack([it[0] for it in items])
+                Tg = np.stack([it[1] for it in items])
+                reg = f"{fn}/{dn}/reflection-stress/N:{n}"
+                wit0 = {"fn": fn, "dtype": dn, "N": n, "batch": [B]}
+                okc, out = ck.call("call", reg, fn, (lambda: pp.svdtf(tt(S, dn), tt(Tg, dn))) if fn == "svdtf"
+                                   else (lambda: pp.svdstf(tt(S, dn), tt(Tg, dn))), witness=wit0)
+                if not okc:
+                    continue
+                width = 7 if fn == "svdtf" else 8
+                if not ck.check(tuple(out.shape) == (B, width), "proper", reg, fn, "type_shape_or_dtype", lambda: dict(wit0, got=list(out.shape))):
+                    continue
+                X = out.tensor().detach().double().numpy()
+                ck.count("alignment.stress", reg, n=B, rows=np.concatenate([S.reshape(B, -1), Tg.reshape(B, -1)], -1))
 
+                def w(i):
+                    return dict(wit0, item=int(i), kind=kinds[i % len(kinds)], source=S[i], target=Tg[i], got=X[i])
+                fin = np.all(np.isfinite(X), axis=1)
+                ck.check(bool(fin.all()), "proper", reg, fn, "non_finite_components", lambda: w(int(np.nonzero(~fin)[0][0])))
+                X = np.where(fin[:, None], X, 0.0)
+                X[~fin, 6] = 1.0
+                rr(ck, "proper", reg, np.abs(np.linalg.norm(X[:, 3:7], axis=1) - 1.0), C * u, fn, "rotation_not_a_unit_quaternion", w)
+                if fn == "svdstf":
+                    pos = X[:, 7] > 0
+                    ck.check(bool(pos.all()), "proper", reg, fn, "scale_not_positive", lambda: w(int(np.nonzero(~pos)[0][0])))
+                Mr, info = G.align_batch(S, Tg, fn == "svdstf")
+                Mg = L.group_matrix("SE3" if fn == "svdtf" else "Sim3", X)
+                sg, sr = G.sse_batch(Mg, S, Tg), G.sse_batch(Mr, S, Tg)
+                floor = C * u * (info["s"] * (info["nS"] + np.sqrt(n) * info["cs"]) + info["nQ"] + np.sqrt(n) * info["ct"]) ** 2
+                rr(ck, "optimal.vs_reference", reg, np.maximum(0.0, sg - sr * (1 + REL)), floor, fn, "sum_of_squares_larger_than_reference_optimum",
+                   lambda i: dict(w(i), sse_got=float(sg[i]), sse_reference=float(sr[i]), singular_values=info["d"][i], reflection_case=bool(info["sgn"][i] < 0)))
+                ck.mark(f"{fn}/{dn}/reflection-stress", int((info["sgn"] < 0).sum()))
+
+
+# ------------------------------------------------------------------------------- ICP
 
 def small_rigid(rng, src, max_deg, max_frac):
     """Rigid 4x4 (float64): rotation <= max_deg about the centroid of src plus a translation
@@ -550,12 +601,15 @@ def run(ck):
     thorough = ck.tier == "thorough"
     for dn in ("f64", "f32"):
         run_alignment(ck, ck.rng("align" + dn), dn, thorough)
+        run_reflection_stress(ck, ck.rng("stress" + dn), dn, thorough)
     run_icp(ck, ck.rng("icp"), thorough)
     run_pnp(ck, ck.rng("pnp"), thorough)
     for fn in ("svdtf", "svdstf"):
         ck.require(*[f"{fn}/{k}" for k in KINDS], f"{fn}/minimal-3-points", f"{fn}/reflection-corrected", f"{fn}/no-reflection",
                    f"{fn}/optimum-unique", f"{fn}/optimum-not-unique", f"{fn}/noise:0", f"{fn}/noise:large",
                    f"{fn}/batch-rank0", f"{fn}/batch-rank1", f"{fn}/batch-rank2")
+    for dn in ("f64", "f32"):
+        ck.require(f"svdtf/{dn}/reflection-stress", f"svdstf/{dn}/reflection-stress", minimum=2000)
     ck.require("ICP/recover", "ICP/recover+init", "ICP/recover+superset", "ICP/far", "ICP/noisy", "ICP/partial", "ICP/short-stepper",
                "ICP/batched", "ICP/init:none", "ICP/init:constructor", "ICP/init:forward", "ICP/reused-object",
                "ICP/recovered-inside-basin", "ICP/strictly-improved",
